@@ -296,7 +296,10 @@ def build_driver(timeout=1800):
 def config_of(harness_bin):
     """build/cargo/<config>/<profile>/verif-harness -> <config>"""
     parts = os.path.normpath(harness_bin).split(os.sep)
-    return parts[parts.index("cargo") + 1] if "cargo" in parts else "default"
+    for k, x in enumerate(parts[:-1]):
+        if x == "cargo" or x.startswith("cargo-alt-"):
+            return parts[k + 1]
+    return "default"
 
 
 def canon(line):
